@@ -166,7 +166,8 @@ A(V("c04-dep-dropped", "C04", "ttLib/tables/_h_e_a_d.py", '    dependencies = ["
 A(V("c04-hhea-dep-dropped", "C04", "ttLib/tables/_h_h_e_a.py", '    dependencies = ["hmtx", "glyf", "CFF ", "CFF2"]', '    dependencies = ["glyf", "CFF ", "CFF2"]', "F10"))
 A(V("c04-align-2", "C04", SFW, "                paddedOff = (off + 3) & ~3", "                paddedOff = (off + 1) & ~1", "ALIGN"))
 A(V("c04-dir-unsorted", "C04", SFW, "        tables = sorted(self.tables.items())\n        if len(tables) != self.numTables:", "        tables = list(self.tables.items())\n        if len(tables) != self.numTables:", "DIR"))
-A(V("c04-checksum-offset", "C04", SFW, '        self.file.seek(self.tables["head"].offset + 8)', '        self.file.seek(self.tables["head"].offset + 12)', "CONST"))
+A(V("c04-checksum-offset", "C04", SFW, '        self.file.seek(head.offset + 8)', '        self.file.seek(head.offset + 12)', "CONST"))
+A(V("c04-head-guard-dropped", ["C04", "C20"], SFW, "        if head.length < 12:\n", "        if head.length < 0:\n", "HEAD-patch"))
 A(V("c04-searchrange-item", "C04", SFW, "                self.numTables, 16\n            )\n            directory = sstruct.pack(sfntDirectoryFormat, self)", "                self.numTables, 20\n            )\n            directory = sstruct.pack(sfntDirectoryFormat, self)", "CONST"))
 A(V("c04-head-window", "C04", SFW, '            entry.checkSum = calcChecksum(data[:8] + b"\\0\\0\\0\\0" + data[12:])\n            self.headTable = data', '            entry.checkSum = calcChecksum(data[:4] + b"\\0\\0\\0\\0" + data[8:])\n            self.headTable = data', "CONST"))
 A(V("c04-checksum-of-other-data", "C04", SFW, "            entry.checkSum = calcChecksum(data)\n        entry.saveData(self.file, data)", "            entry.checkSum = calcChecksum(data.rstrip(b\"\\0\"))\n        entry.saveData(self.file, data)", "DIR"))
